@@ -1615,6 +1615,45 @@ pub fn t_modtype(a: &[i64]) -> Val {
     Val::L(vec![run(false), run(true)])
 }
 
+// t_order_modules: the same three modules added in two different orders (C09: the result does not depend on the order in which modules are
+// added).  `p` declares a type / extern type that may be called like its nested module `q`; `p::q` and `r` are further modules.
+// a = [ps, p_item (0 none, 1 type `q`, 2 extern type `q`, 3 type `S`), q_refs (0 own type, 1 a type of r via `use r`), order (0..5)]
+pub fn t_order_modules(a: &[i64]) -> Val {
+    let ps = a[0] as usize;
+    let p8 = || T::ident("u8").const_pointer();
+    let mp = match a[1] {
+        1 => M::new().with_definitions([ID::new((V::Public, "q"), TD::new([TS::field((V::Public, "x"), p8())]))]),
+        2 => M::new().with_extern_types(vec![("q".into(), As::from(vec![A::integer_fn("size", 4), A::integer_fn("align", 4)]))]),
+        3 => M::new().with_definitions([ID::new((V::Public, "S"), TD::new([TS::field((V::Public, "x"), p8())]))]),
+        _ => M::new(),
+    };
+    let mr = M::new().with_definitions([ID::new((V::Public, "W"), TD::new([TS::field((V::Public, "w"), p8())]))]);
+    let mut mq = M::new().with_definitions([
+        ID::new((V::Public, "Own"), TD::new([TS::field((V::Public, "o"), p8())])),
+        ID::new(
+            (V::Public, "R"),
+            TD::new([TS::field((V::Public, "f"), T::ident(if a[2] != 0 { "W" } else { "Own" }).const_pointer())]),
+        ),
+    ]);
+    if a[2] != 0 {
+        mq = mq.with_uses([IP::from("r")]);
+    }
+    let orders: [[usize; 3]; 6] = [[0, 1, 2], [0, 2, 1], [1, 0, 2], [1, 2, 0], [2, 0, 1], [2, 1, 0]];
+    let run = |order: [usize; 3]| -> Val {
+        let mods: [(&M, &str); 3] = [(&mp, "p"), (&mq, "p::q"), (&mr, "r")];
+        let mut st = SemanticState::new(ps);
+        for i in order {
+            let (m, path) = mods[i];
+            if let Err(e) = st.add_module(m, &IP::from(path)) {
+                return outcome(Err(e));
+            }
+        }
+        outcome(st.build())
+    };
+    let k = a[3] as usize;
+    Val::L(vec![run(orders[0]), run(orders[if k < 6 { k } else { 0 }])])
+}
+
 pub type Template = fn(&[i64]) -> Val;
 pub const TEMPLATES: &[(&str, Template)] = &[
     ("t_predefined", t_predefined),
@@ -1622,6 +1661,7 @@ pub const TEMPLATES: &[(&str, Template)] = &[
     ("t_enum", t_enum),
     ("t_impl", t_impl),
     ("t_implname", t_implname),
+    ("t_order_modules", t_order_modules),
     ("t_names", t_names),
     ("t_vftargs", t_vftargs),
     ("t_privbase", t_privbase),
